@@ -2,7 +2,7 @@
 
 PROPS = {
     "C11": {
-        "quick": ["R-PERM", "R-HERM-GUARD", "R-NORM-VIEW"],
+        "quick": ["R-PERM", "R-HERM-GUARD", "R-NORM-VIEW", "R-EFF-RESP"],
         "thorough": ["R-ADJ-TRANS", "R-NULL-SEED"],
         "technique": "static index-agreement, guard-dominance and view-provenance rules on EigenSolve",
         "claim": "Decides structural clauses of C11: eigenvalues and eigenvector columns are permuted by the same index, "
@@ -13,7 +13,7 @@ PROPS = {
         "explanation": "AST/CFG rules over EigenSolve._response and _sparse_eigs.",
     },
     "C20": {
-        "quick": ["R-FMT-AGREE", "R-SECTION-AGREE", "R-LOG-LOCKSTEP"],
+        "quick": ["R-FMT-AGREE", "R-SECTION-AGREE", "R-LOG-LOCKSTEP", "R-DOMAIN-PURE"],
         "thorough": ["R-TAG-BALANCE"],
         "technique": "static writer-table agreement (declared format vs cast, section vs count), path counting over CFGs",
         "claim": "Decides structural clauses of C20: every DataArray declared Float32 writes np.float32-cast data, "
@@ -41,7 +41,7 @@ PROPS = {
                        "every use of a block in the response and sensitivity of SystemOfEquations / StaticCondensation.",
     },
     "C08": {
-        "quick": ["R-BC-BOTH"],
+        "quick": ["R-BC-BOTH", "R-SHARED-STATE", "R-DOMAIN-PURE"],
         "thorough": ["R-PARALLEL", "R-GAUSS-SIB"],
         "technique": "static operand-dependence slice and sibling agreement of the element-integration loops",
         "claim": "Decides structural clauses of C08: the boundary-condition selector depends on membership of the entry's "
@@ -54,7 +54,7 @@ PROPS = {
                        "normalised-expression comparison across sibling loops.",
     },
     "C09": {
-        "quick": ["R-KERNEL-NORM"],
+        "quick": ["R-KERNEL-NORM", "R-SHARED-STATE"],
         "thorough": ["R-ROWSUM", "R-PAD-SIB", "R-CONV-PAIR", "R-FILTER-ORDER"],
         "technique": "static must-pass-through on the kernel construction, sibling agreement of padding branches",
         "claim": "Decides structural clauses of C09: on every path the radius kernel is divided by its own sum after its "
@@ -127,7 +127,7 @@ PROPS = {
                        "expansion, and a sign/monotonicity lattice through /, sqrt, *, clip, sum for the bisection.",
     },
     "C12": {
-        "quick": ["R-TRANSPOSE-PAIR", "R-EINSUM-VJP", "R-SCATTER", "R-CONSTIT"],
+        "quick": ["R-TRANSPOSE-PAIR", "R-EINSUM-VJP", "R-SCATTER", "R-CONSTIT", "R-SHARED-STATE"],
         "thorough": ["R-GAUSS-SIB"],
         "technique": "static einsum subscript algebra and gather/scatter role comparison of sibling operators",
         "claim": "Decides the structural clause 'NodalOperation is the transpose of ElementOperation': the response "
@@ -244,7 +244,7 @@ PROPS = {
                        "accessors.",
     },
     "C03": {
-        "quick": ["R-FRESH", "R-LATCH", "R-UPDATE-BEFORE-SOLVE", "R-RESET", "R-EFF-RESP", "R-EFF-SELF"],
+        "quick": ["R-FRESH", "R-LATCH", "R-UPDATE-BEFORE-SOLVE", "R-RESET", "R-EFF-RESP", "R-EFF-SELF", "R-SHARED-STATE"],
         "thorough": ["R-LATCH-LDA"],
         "technique": "static attribute def/use typestate (must/may-write over CFGs), dependence slices STRUCT/VALUE, dominance",
         "claim": "Decides the cache-typestate clauses behind C03 for every Module subclass: every attribute a "
@@ -261,7 +261,7 @@ PROPS = {
                        "solver.update over solver.solve with monotone-flag discharge.",
     },
     "C04": {
-        "quick": ["R-EFF-SEED", "R-EFF-STATE", "R-EFF-RESP", "R-EFF-SELF", "R-STATE-WRITERS"],
+        "quick": ["R-EFF-SEED", "R-EFF-STATE", "R-EFF-RESP", "R-EFF-SELF", "R-STATE-WRITERS", "R-LINEAR"],
         "thorough": [],
         "technique": "static effect analysis: may-alias origins + mutation sinks over CFGs, callee summaries",
         "claim": "Decides, for every path of every _response/_sensitivity/_reset of every Module subclass in the "
